@@ -26,12 +26,12 @@ def run(ctx, R):
     R.explanation = 'Binding protocol of Stream.__init__/_set_*/_inform_*, constructor chains of all node classes, thread sites.'
     R.not_decided = ['thread identity at run time for a given configuration (not executed)']
     declare(R, loopbind.RULES, RULES, FLOORS)
-    loopbind.check_mode_preserved(ctx, R)
-    loopbind.check_inform(ctx, R)
-    loopbind.check_loop_use_ensures(ctx, R)
-    loopbind.check_ctor_chains(ctx, R)
-    loopbind.check_thread_site(ctx, R)
-    loopbind.check_schedule_on_self_loop(ctx, R)
+    R.run(loopbind.check_mode_preserved, ctx, R)
+    R.run(loopbind.check_inform, ctx, R)
+    R.run(loopbind.check_loop_use_ensures, ctx, R)
+    R.run(loopbind.check_ctor_chains, ctx, R)
+    R.run(loopbind.check_thread_site, ctx, R)
+    R.run(loopbind.check_schedule_on_self_loop, ctx, R)
 
 
 META['level'] += ' The asynchronous test is the first thing get_io_loop does; _inform_* percolate unconditionally; RefCounters created by nodes are bound to self.loop.'
